@@ -420,3 +420,53 @@ func H_C20_tight(outer, _ int) {
 	check(vsame(f2, f), "C20.idempotent")
 	vdigest(f)
 }
+
+// H_C20_span(container, _): an inline construct that continues on the next line of a
+// paragraph inside a container (0 block quote, 1 bullet item, 2 ordered item, 3 block
+// quote inside a bullet item). The construct is chosen by the solver: emphasis with
+// '*' or '_', strong emphasis, emphasis holding strong emphasis, link text, a code
+// span, an image description, a raw inline tag. The second line carries the
+// container's prefix in the source; the formatted text must not carry it twice.
+func H_C20_span(container, _ int) {
+	a, b := nondetByte(), nondetByte()
+	assume(isL(a))
+	assume(isL(b))
+	first := []string{"> ", "- ", "1. ", "- > "}[container]
+	rest := []string{"> ", "  ", "   ", "  > "}[container]
+	open, cl := "", ""
+	switch vconcrete(nondetInt(0, 7)) {
+	case 0:
+		open, cl = "*", "*"
+	case 1:
+		open, cl = "_", "_"
+	case 2:
+		open, cl = "**", "**"
+	case 3:
+		open, cl = "*p **", "** q*"
+	case 4:
+		open, cl = "[", "](u)"
+	case 5:
+		open, cl = "`", "`"
+	case 6:
+		open, cl = "![", "](u)"
+	default:
+		open, cl = "<i t=\"", "\">"
+	}
+	var d []byte
+	d = append(d, first+"x "+open...)
+	d = append(d, a, '\n')
+	d = append(d, rest...)
+	d = append(d, b)
+	d = append(d, cl+" y\n"...)
+	f := formatDoc(cloneBytes(d))
+	h1 := normHTML(renderHTML(cloneBytes(d)))
+	h2 := normHTML(renderHTML(cloneBytes(f)))
+	if !vsame(h1, h2) {
+		vnote("doc=" + string(d))
+		vnote("formatted=" + string(f))
+	}
+	check(vsame(h2, h1), "C20.meaning-preserved")
+	f2 := formatDoc(cloneBytes(f))
+	check(vsame(f2, f), "C20.idempotent")
+	vdigest(f)
+}
